@@ -315,7 +315,7 @@ Qed.
 Lemma read_blank cs st Nd sn no :
   rinv st Nd sn no -> exists st', read_line cs (Ok st) EmptyString = Ok st' /\ rinv st' Nd sn no.
 Proof.
-  intros [N [D S]]. unfold read_line. cbn [strip lstrip rstrip]. change (is_comment EmptyString) with false. cbv iota.
+  intros [N [D S]]. unfold read_line. cbn [strip lstrip rstrip]. change (is_comment EmptyString) with false. cbn [andb]. cbv iota.
   rewrite S. destruct (r_opt st) as [on|].
   - eexists. split; [reflexivity|]. split; [|split; [exact D|reflexivity]]. cbn [r_done]. rewrite norm_add_blank. exact N.
   - eexists. split; [reflexivity|]. split; [exact N|split; [exact D|reflexivity]].
@@ -737,7 +737,7 @@ Proof.
   { unfold strip. rewrite lstrip_spaces, Hl. exact Hr. }
   assert (Eind : indent_of (spaces (key_width + 3) ++ c) = key_width + 3).
   { unfold indent_of. rewrite lstrip_spaces, Hl, length_app_s, length_spaces. lia. }
-  unfold read_line. cbv zeta. rewrite Estrip, Hc. destruct c as [|a r]; [contradiction|].
+  unfold read_line. cbv zeta. rewrite Estrip, Hc. cbn [andb]. destruct c as [|a r]; [contradiction|].
   rewrite Eind, Hs, Ho, Hi. reflexivity.
 Qed.
 
@@ -978,7 +978,7 @@ Proof.
   assert (Estrip : strip (String a kr) = String a kr) by (unfold strip; rewrite Els; exact Hkr).
   assert (Ecom : is_comment (String a kr) = false) by (apply is_comment_other; assumption).
   assert (Eind : indent_of (String a kr) = 0) by (unfold indent_of; rewrite Els; apply Nat.sub_diag).
-  unfold read_line. rewrite Estrip, Ecom. cbv iota. rewrite Eind, Hs.
+  unfold read_line. rewrite Estrip, Ecom. cbn [andb]. cbv iota. rewrite Eind, Hs.
   assert (Enew : new_line cs st (String a kr) 0 =
                  Ok (RState (sset (r_done st) sn (opts ++ [(k', None)])%list) (Some sn) (Some k') 0)).
   { unfold new_line. rewrite header_of_other by assumption. rewrite Hs.
@@ -1005,7 +1005,7 @@ Proof.
     apply rstrip_app_keep; [reflexivity|discriminate]. }
   assert (Ecom : is_comment line = false) by (rewrite Eline; apply is_comment_other; assumption).
   assert (Eind : indent_of line = 0) by (unfold indent_of; rewrite Els; apply Nat.sub_diag).
-  unfold read_line. rewrite Estrip, Ecom. rewrite Eline at 1. cbv iota. try rewrite <- Eline. rewrite Eind, Hs.
+  unfold read_line. rewrite Estrip, Ecom. cbn [andb]. rewrite Eline at 1. cbv iota. try rewrite <- Eline. rewrite Eind, Hs.
   assert (Enew : new_line cs st line 0 =
                  Ok (RState (sset (r_done st) sn (opts ++ [(k', Some [EmptyString])])%list) (Some sn) (Some k') 0)).
   { unfold new_line. rewrite Eline at 1. rewrite header_of_other by assumption. rewrite Hs.
@@ -1913,6 +1913,13 @@ Proof.
 Qed.
 
 (* ================================================================== write, then read: the same content *)
+Lemma read_line_q_off cs lines : forall st,
+  fold_left (read_line_q all_off cs) lines st = fold_left (read_line cs) lines st.
+Proof.
+  induction lines as [|l r IH]; intros st; [reflexivity|]. cbn [fold_left]. rewrite IH. f_equal.
+  destruct st; reflexivity.
+Qed.
+
 Theorem readback_ok (cs : bool) (w : nat) (c : config) :
   view_ok cs w (c_view c) ->
   answer all_off c (QReadBack w cs) = AContent (Ok (view_content (c_view c))).
@@ -1921,7 +1928,7 @@ Proof.
   - cbn [answer]. unfold as_str. rewrite Ev. destruct cs; reflexivity.
   - pose proof V as [ND F].
     destruct (read_view cs w ns r V) as [st [R N]].
-    cbn [answer apply_op]. unfold parse_ini. rewrite (text_lines cs w c ns r Ev V), R.
+    cbn [answer apply_op]. unfold parse_ini. rewrite read_line_q_off, (text_lines cs w c ns r Ev V), R.
     assert (Hv : sget "__vars__" (r_done st) = None).
     { apply (sget_norm_none _ _ _ N). eapply (dunder_not_section cs w); [reflexivity|exact F]. }
     rewrite Hv. rewrite (parsed_items_ok cs w "f" _ _ N F).
